@@ -32,6 +32,7 @@ func (e *Env) WriteEvidence(id, level string, cov map[string]interface{}, assump
 		}
 	}
 	cov["components"] = Components
+	cov["seeds"] = map[string]interface{}{"verif_seed": int64(e.Seed), "derivation": "every case/run i draws all its choices from splitmix64(VERIF_SEED, property, stream name, i)"}
 	cov["repo_tree"] = e.Repo
 	ev := Evidence{PropertyID: id, Tier: e.Tier, Seed: int64(e.Seed), Level: level, Coverage: cov, Assumptions: assumptions, WallS: wall, Violations: violations}
 	return WriteFileJSON(filepath.Join(e.Home, "evidence", id+".json"), ev)
